@@ -17,7 +17,8 @@ def extra(led, tier, seed):
     # the decoration learns which sample sits in which row only through _batchify: every training loop (fit of every estimator
     # and the sparse path) must draw its batches from it, one lazily consumed generator per epoch
     from contracts import fit_loop
-    led.extend(o for o in fit_loop.obligations() if "batch loop iterates _batchify" in o.name or "_batchify(X, affinity, rng)" in o.name)
+    led.extend(o for o in fit_loop.obligations() if "batch loop iterates _batchify" in o.name or "_batchify(X, affinity, rng)" in o.name
+               or "the array cut into batches" in o.name)
     led.extend(o for o in batching.fx_obligations() if "disguise_batch" in o.name)
     led.assume("A2", "A3", "A8", "A5: csgraph.breadth_first_order(graph, i, directed=False) returns exactly the nodes of the connected component of i",
                "gradient injection proved for all real predictions / upstream gradients / factors at n = 3 (4 thorough) over the enumerated permutations, batch sizes and pair sets (P@S)",
